@@ -6,6 +6,8 @@ from .. import monitors as M
 from .. import refmodel as R
 from .. import spec as S
 from . import common as C
+from . import extreme as X
+from . import c01
 
 MONITORS = ("math", "route")
 LEVEL = "exploration"
@@ -26,6 +28,10 @@ GUARDED = {"Divide", "Reciprocal", "Logarithm", "Power", "NthRoot"}
 
 
 def make_case(rng, tier):
+    if rng.random() < 0.02:
+        t, p = X.gen_flat(rng)
+        if t is not None:
+            return {"kind": "extreme_flat", "family": "extreme_flat", "guard": "-", "spec": S.to_json(t), "points": [S.point_to_json(p)], "mode": "tree"}
     if rng.random() < 0.7:
         t, pts, info = G.boundary_case(rng)
         fam = "boundary:" + info["context"]
@@ -46,6 +52,9 @@ def run_shard(ctx):
 
 
 def check_case(ctx, case):
+    if case.get("kind") == "extreme_flat":
+        # "as long as no exact intermediate leaves the range of double precision, returns a finite real number"
+        return c01.check_extreme(ctx, case)
     s = S.from_json(case["spec"])
     mode = case.get("mode", "tree")
     ctx.count("cases")
